@@ -89,10 +89,32 @@ def compare(node, x, c):
             sens = max(_close(y_p, y_ref, M, tol), _close(ld_p, ld_ref, abs(ld_ref), tol))
             if sens > 0.01:
                 return "ill", None
+            if "logdet" in name and _kink_ok(node, x, c, got, tol, 1.0 if name.startswith("transform") else -1.0):
+                continue  # a derivative kink (spline interval end, ...): either one-sided value is acceptable
             return "bad", (name, f"combinator gives {np.asarray(got).tolist()}, definition gives "
                                  f"{np.asarray(want).tolist()} (x={x.tolist()}, c={None if c is None else c.tolist()})")
         worst = max(worst, r)
     return "ok", dict(worst=worst, y0=y0, M=M, tolv=tolv, ld_ref=ld_ref, cj=cj)
+
+
+def _kink_ok(node, x, c, got_ld, tol, sign):
+    """At a point the implementation compares against, the log-det jumps and one ulp of rounding decides the
+    side.  Accept the combinator's value if the reference FORWARD log-det at x with the tied coordinates
+    displaced by +-1e-9 reproduces it (sign=-1: the inverse log-det at the image of x)."""
+    import itertools
+    pool = set(float(v) for v in bd.tree_points(node))
+    af = np.asarray(x, np.float64).reshape(-1)
+    tied = [i for i, v in enumerate(af) if float(v) in pool][:4]
+    if not tied:
+        return False
+    for signs in itertools.product((1.0, -1.0), repeat=len(tied)):
+        an = af.copy()
+        for i, sg in zip(tied, signs):
+            an[i] += sg * 1e-9 * (1 + abs(an[i]))
+        _, ld = bd.ref_eval(node, "fwd", an.reshape(np.shape(x)), c, True)
+        if abs(sign * float(np.asarray(got_ld)) - ld) <= (tol + 1e-6) * (1 + abs(ld)):
+            return True
+    return False
 
 
 def culprit(node, inp):
